@@ -152,6 +152,17 @@ theorem limitDeltasOrd_eq_limitDeltas (order : List Nat) (lim : Nat → Option K
     dictGet (limitDeltasOrd order lim cur tw) k = dictGet (limitDeltas lim cur tw) k :=
   limitDeltasOrd_get order lim cur tw hcov hl k
 
+/-- ... and it does depend on it: two held names that are not targeted (current weights 1/2 and 1/4, limit 1/10, empty target vector)
+    enter `temp['weights']` in the order of the iteration - the mechanism behind the hash-seed dependence of `LimitDeltas` repaired
+    in 44c2109 (the iteration was over a `set` of strings; `Rebalance` trades in the order of the dict) -, with the same entries -/
+example : limitDeltasOrd [0, 1] (fun _ => some (1/10 : Rat)) [(0, 1/2), (1, 1/4)] [] = [(0, 2/5), (1, 3/20)] ∧
+    limitDeltasOrd [1, 0] (fun _ => some (1/10 : Rat)) [(0, 1/2), (1, 1/4)] [] = [(1, 3/20), (0, 2/5)] ∧
+    (∀ k, dictGet (limitDeltasOrd [0, 1] (fun _ => some (1/10 : Rat)) [(0, 1/2), (1, 1/4)] []) k =
+      dictGet (limitDeltasOrd [1, 0] (fun _ => some (1/10 : Rat)) [(0, 1/2), (1, 1/4)] []) k) := by
+  refine ⟨by decide +kernel, by decide +kernel, fun k => ?_⟩
+  rw [limitDeltasOrd_eq_limitDeltas [0, 1] _ _ _ (by decide) (fun _ l h => by cases h; norm_num) k,
+    limitDeltasOrd_eq_limitDeltas [1, 0] _ _ _ (by decide) (fun _ l h => by cases h; norm_num) k]
+
 /-- **per-period change bounded on the way to `Rebalance`**: with `LimitDeltas` last on a strategy that has children, the tree
     is first brought up to date (`refresh`), and every iterated name `k` with a non-negative limit `l` is handed over with a
     weight (absent = 0) within `l` of the child's current weight on the refreshed tree (absent = 0) -/
